@@ -3,7 +3,14 @@ use std::fs::{DirEntry, File};
 use std::io::{self, Cursor, ErrorKind, Read, Seek, SeekFrom, Write};
 use std::mem::size_of;
 use std::path::{Path, PathBuf};
+#[cfg(not(xet_verif))]
 use std::sync::{Arc, Mutex, MutexGuard};
+// Verification hook: under the guard the state lock comes from utils::verif::sync, where every acquisition is a
+// schedule point of the simulation harness.
+#[cfg(xet_verif)]
+use std::sync::{Arc, MutexGuard};
+#[cfg(xet_verif)]
+use utils::verif::sync::Mutex;
 
 use base64::engine::general_purpose::URL_SAFE;
 use base64::engine::GeneralPurpose;
